@@ -308,6 +308,9 @@ func contract_ConsumeVarint(b []byte) (v uint64, n int) {
 	ensures(imp(n < 0, v == 0))
 	// summary used by callers: never reports more than the input holds
 	ensures(n == errCodeTruncated || n == errCodeOverflow || (1 <= n && n <= 10 && n <= len(b)))
+	// any encoding is at least as long as the shortest one, and its byte at the
+	// shortest encoding's last position carries a non-zero 7-bit group
+	ensures(imp(n > 0 && v != 0, specVlen(v) <= n && b[specVlen(v)-1]&0x7f != 0))
 	return
 }
 
@@ -333,6 +336,7 @@ func contract_ConsumeTag(b []byte) (num Number, typ Type, n int) {
 	ensures(imp(n > 0, num >= 1 && 0 <= typ && typ <= 7))
 	ensures(imp(n < 0, num == 0 && typ == 0))
 	ensures(n == errCodeTruncated || n == errCodeOverflow || n == errCodeFieldNumber || (1 <= n && n <= 10 && n <= len(b)))
+	ensures(imp(n > 0, specVlen(uint64(num)*8+uint64(typ)) <= n && b[specVlen(uint64(num)*8+uint64(typ))-1]&0x7f != 0))
 	return
 }
 
@@ -459,4 +463,136 @@ func lemma_StringRoundTrip(b []byte, v string) {
 	w, n := ConsumeString(r[len(b):])
 	ensures(n == SizeBytes(len(v)) && n == len(r)-len(b))
 	ensures(w == v)
+}
+
+// ---------------------------------------------------------------- C02: the wire grammar
+
+// specValueLen is the wire grammar of a field value of wire type typ at the
+// start of b: its length, or the error code of the first defect. depth is the
+// remaining nesting budget. (Mutually recursive with specGroupLen; the
+// recursion is well founded on (depth, len(b)).)
+//
+//@ opaque
+func specValueLen(num Number, typ Type, b []byte, depth int) int {
+	switch typ {
+	case VarintType:
+		return specVarintLen(b)
+	case Fixed32Type:
+		if len(b) < 4 {
+			return errCodeTruncated
+		}
+		return 4
+	case Fixed64Type:
+		if len(b) < 8 {
+			return errCodeTruncated
+		}
+		return 8
+	case BytesType:
+		return specBytesLen(b)
+	case StartGroupType:
+		if depth < 0 {
+			return errCodeRecursionDepth
+		}
+		return specGroupLen(num, b, depth)
+	case EndGroupType:
+		return errCodeEndGroup
+	default:
+		return errCodeReserved
+	}
+}
+
+// specGroupLen is the grammar of a group body at the start of b, up to and
+// including the end-group tag that must carry field number num:
+// a sequence of fields (tag, value) closed by a matching end tag.
+//
+//@ opaque
+func specGroupLen(num Number, b []byte, depth int) int {
+	tn := specTagLen(b)
+	if tn < 0 {
+		return tn
+	}
+	tnum := Number(specVarintVal(b, tn) >> 3)
+	ttyp := Type(specVarintVal(b, tn) & 7)
+	if ttyp == EndGroupType {
+		if tnum != num {
+			return errCodeEndGroup
+		}
+		return tn
+	}
+	vn := specValueLen(tnum, ttyp, b[tn:], depth-1)
+	if vn < 0 {
+		return vn
+	}
+	rest := specGroupLen(num, b[tn+vn:], depth)
+	if rest < 0 {
+		return rest
+	}
+	return tn + vn + rest
+}
+
+//@ props C02
+//@ mode int
+//@ abstract specVarintLen specVarintVal specTagLen specBytesLen
+//@ loop 1 invariant suffixOf(b, old(b)) && n0 == len(old(b))
+//@ loop 1 invariant imp(specGroupLen(num, b, depth) < 0, specGroupLen(num, old(b), depth) == specGroupLen(num, b, depth))
+//@ loop 1 invariant imp(specGroupLen(num, b, depth) >= 0, specGroupLen(num, old(b), depth) == n0-len(b)+specGroupLen(num, b, depth))
+//@ loop 1 decreases len(b)
+func contract_consumeFieldValueD(num Number, typ Type, b []byte, depth int) (n int) {
+	ensures(n == specValueLen(num, typ, b, depth))
+	ensures(n < 0 || n <= len(b))
+	// a group ends with an end tag of 1..10 bytes carrying num
+	ensures(imp(typ == StartGroupType && n >= 0, num >= 1))
+	ensures(imp(typ == StartGroupType && n >= 0, exists(1, 11, func(t int) bool { return specEndTagAt(b, n, t, num) })))
+	return
+}
+
+//@ props C02
+//@ mode int
+//@ abstract specVarintLen specVarintVal specTagLen specBytesLen
+func contract_ConsumeFieldValue(num Number, typ Type, b []byte) (n int) {
+	ensures(n == specValueLen(num, typ, b, DefaultRecursionLimit))
+	ensures(n < 0 || n <= len(b))
+	ensures(imp(typ == StartGroupType && n >= 0, num >= 1))
+	ensures(imp(typ == StartGroupType && n >= 0, exists(1, 11, func(t int) bool { return specEndTagAt(b, n, t, num) })))
+	return
+}
+
+// specEndTagAt: the t bytes of b ending at position n are an end-group tag for
+// num (possibly in non-minimal encoding): its shortest form fits in t bytes and
+// the byte at the shortest form's last position has a non-zero 7-bit group.
+func specEndTagAt(b []byte, n, t int, num Number) bool {
+	return t <= n && n <= len(b) &&
+		specVlen(uint64(num)*8+4) <= t &&
+		b[n-t+specVlen(uint64(num)*8+4)-1]&0x7f != 0
+}
+
+//@ props C01 C02
+//@ mode int
+//@ abstract specVarintLen specVarintVal specTagLen specBytesLen
+//@ loop 1 invariant sameBase(b, old(b)) && len(b) <= n && n <= len(old(b)) && num >= 1
+//@ loop 1 invariant forall(0, len(b), func(i int) bool { return b[i] == old(b)[i] })
+//@ loop 1 invariant exists(1, 11, func(t int) bool { return specEndTagAt(old(b), n, t, num) && len(b) >= n-t+specVlen(uint64(num)*8+4) })
+//@ loop 1 decreases len(b)
+func contract_ConsumeGroup(num Number, b []byte) (v []byte, n int) {
+	ensures(n == specValueLen(num, StartGroupType, b, DefaultRecursionLimit))
+	ensures(imp(n < 0, v == nil))
+	// the value is a prefix of b that excludes (at least) the shortest form of the end tag
+	ensures(imp(n >= 0, sameBase(v, b) && len(v)+specVlen(uint64(num)*8+4) <= n))
+	ensures(imp(n >= 0, forall(0, len(v), func(i int) bool { return v[i] == b[i] })))
+	return
+}
+
+//@ props C02
+//@ mode int
+//@ abstract specVarintLen specVarintVal specTagLen specBytesLen
+func contract_ConsumeField(b []byte) (num Number, typ Type, n int) {
+	// a field is a tag followed by the value its wire type announces
+	ensures(imp(specTagLen(b) < 0, n == specTagLen(b)))
+	ensures(imp(specTagLen(b) >= 0 && specValueLen(Number(specVarintVal(b, specTagLen(b))>>3), Type(specVarintVal(b, specTagLen(b))&7), b[specTagLen(b):], DefaultRecursionLimit) < 0,
+		n == specValueLen(Number(specVarintVal(b, specTagLen(b))>>3), Type(specVarintVal(b, specTagLen(b))&7), b[specTagLen(b):], DefaultRecursionLimit)))
+	ensures(imp(specTagLen(b) >= 0 && specValueLen(Number(specVarintVal(b, specTagLen(b))>>3), Type(specVarintVal(b, specTagLen(b))&7), b[specTagLen(b):], DefaultRecursionLimit) >= 0,
+		n == specTagLen(b)+specValueLen(Number(specVarintVal(b, specTagLen(b))>>3), Type(specVarintVal(b, specTagLen(b))&7), b[specTagLen(b):], DefaultRecursionLimit)))
+	ensures(imp(n < 0, num == 0 && typ == 0))
+	ensures(n < 0 || n <= len(b))
+	return
 }
